@@ -204,6 +204,7 @@ def run(rep, tier):
     rep.rule('R04.6', 'skeleton agreement: the event/phase skeleton of the emitted uscxml_step equals the fast engine\'s (callbacks through on_exit/on_entry/on_transition/invoke/raise_done_event, ctx->config updates)')
     rep.rule('R04.7', 'index width provenance: the type chosen for the loop variables i, j, k can hold both loop bounds of every emitted machine, i.e. it is selected from the same maxima the two *_TYPE macros come from')
     rep.assume('same trace as the interpreter per chart, per-document tables (C05) and the executable-content functions are not decided here')
+    rep.rule('R04.16', 'executed content is the same: the script text written for the generated machine is assembled over all text and CDATA children of <script>, like the text the interpreter runs (not the first text node only)')
     rep.rule('R04.15', 'initialisation order: the emitted step function runs the document\'s global script after the root\'s data model was initialised (the engines treat it as entry code of <scxml>)')
     rep.rule('R04.14', 'delays mean the same in the generated machine: the generator converts the delay attribute like the executor does (seconds through a floating type so that fractions survive, the same case rule for the unit)')
     rep.rule('R04.13', 'sibling agreement with the interpreter: every whole-set update (OR / AND / AND_NOT / XOR / COPY / CLEAR with its operands) of FastMicroStep::step, from which the C template was derived, occurs equally often in the emitted C step function (accepted differences are listed with reasons)')
@@ -457,6 +458,22 @@ def run(rep, tier):
     from . import C06
     fbs = facts.FactBase(C06.TUS)
     C06.compare_siblings(rep, fbs, 'R04.11', 'R04.11')
+
+    # ---- R04.16 the generated machine gets the script text the interpreter runs
+    wec = fb.fn('uscxml::ChartToC::writeExecContent', params=['ostream', 'DOMNode', 'size_t'])
+    fronts = []
+    for n_ in wec.walk():
+        if n_['k'] == 'CXXMemberCallExpr' and n_.get('callee', {}).get('q', '').split('::')[-1] in ('front', 'begin') and n_['c'][0].get('c'):
+            b_ = strip(n_['c'][0]['c'][0])
+            if b_ is not None and b_['k'] == 'DeclRefExpr' and 'cript' in (b_['ref'].get('name') or ''):
+                par_ = wec.parent(n_)
+                while par_ is not None and par_['k'] in facts.TRANSPARENT:
+                    par_ = wec.parent(par_)
+                if n_['callee']['q'].split('::')[-1] == 'front' or (par_ is not None and par_.get('op') == '*'):
+                    fronts.append(n_)
+    cdata = any(x_['k'] == 'DeclRefExpr' and x_.get('ref', {}).get('name') == 'CDATA_SECTION_NODE' for x_ in wec.walk())
+    rep.check(not fronts and cdata, 'R04.16', 'writeExecContent|script text', locstr(fronts[0]) if fronts else wec.where(), 'the text handed to exec_content_script %s' % (
+        'is assembled from every text and CDATA child' if not fronts and cdata else 'is the FIRST text node only%s: <script><![CDATA[..]]></script> reaches the callback with NULL, the interpreter runs it' % ('' if cdata else ' and CDATA sections are not collected')))
 
     # ---- R04.15 the global script is the root's entry code: it runs after the root's data was initialised
     cg0 = cgs[alts[0]]
